@@ -20,6 +20,8 @@ from . import ir
 
 # ----- level definitions: parts = list of (name, k, blocks) with blocks: frozenset(labels) -> part idx
 def _level_parts(level):
+    """parts = list of (name, k, blocks, dirs): blocks maps a subset of the part's k labels to the
+    part that stores that block; dirs[i] is the direction (generator) id of label i"""
     f = level.split(':')
     kind = f[0]
     E = frozenset()
@@ -28,20 +30,20 @@ def _level_parts(level):
         return frozenset(a)
 
     if kind == 'Dual':
-        return [('re', 0, {E: 0}), ('eps', 1, {E: 0, fs(0): 1})]
+        return [('re', 0, {E: 0}, ()), ('eps', 1, {E: 0, fs(0): 1}, ('e',))]
     if kind == 'Dual2':
-        return [('re', 0, {E: 0}), ('v1', 1, {E: 0, fs(0): 1}),
-                ('v2', 2, {E: 0, fs(0): 1, fs(1): 1, fs(0, 1): 2})]
+        return [('re', 0, {E: 0}, ()), ('v1', 1, {E: 0, fs(0): 1}, ('e',)),
+                ('v2', 2, {E: 0, fs(0): 1, fs(1): 1, fs(0, 1): 2}, ('e', 'e'))]
     if kind == 'Dual3':
         b3 = {E: 0}
         for s in range(1, 4):
             for c in itertools.combinations(range(3), s):
                 b3[frozenset(c)] = s
-        return [('re', 0, {E: 0}), ('v1', 1, {E: 0, fs(0): 1}),
-                ('v2', 2, {E: 0, fs(0): 1, fs(1): 1, fs(0, 1): 2}), ('v3', 3, b3)]
+        return [('re', 0, {E: 0}, ()), ('v1', 1, {E: 0, fs(0): 1}, ('e',)),
+                ('v2', 2, {E: 0, fs(0): 1, fs(1): 1, fs(0, 1): 2}, ('e', 'e')), ('v3', 3, b3, ('e', 'e', 'e'))]
     if kind == 'HyperDual':
-        return [('re', 0, {E: 0}), ('eps1', 1, {E: 0, fs(0): 1}), ('eps2', 1, {E: 0, fs(0): 2}),
-                ('eps1eps2', 2, {E: 0, fs(0): 1, fs(1): 2, fs(0, 1): 3})]
+        return [('re', 0, {E: 0}, ()), ('eps1', 1, {E: 0, fs(0): 1}, ('e1',)), ('eps2', 1, {E: 0, fs(0): 2}, ('e2',)),
+                ('eps1eps2', 2, {E: 0, fs(0): 1, fs(1): 2, fs(0, 1): 3}, ('e1', 'e2'))]
     if kind == 'HyperHyperDual':
         names = ['re', 'eps1', 'eps2', 'eps3', 'eps1eps2', 'eps1eps3', 'eps2eps3', 'eps1eps2eps3']
         dirs = [(), (1,), (2,), (3,), (1, 2), (1, 3), (2, 3), (1, 2, 3)]
@@ -52,46 +54,47 @@ def _level_parts(level):
             for s in range(0, len(d) + 1):
                 for c in itertools.combinations(range(len(d)), s):
                     blocks[frozenset(c)] = idx[frozenset(d[i] for i in c)]
-            parts.append((nm, len(d), blocks))
+            parts.append((nm, len(d), blocks, tuple(f'e{q}' for q in d)))
         return parts
     if kind == 'DualVec':
         n = int(f[1])
-        parts = [('re', 0, {E: 0})]
+        parts = [('re', 0, {E: 0}, ())]
         for i in range(n):
-            parts.append((f'eps[{i}]', 1, {E: 0, fs(0): 1 + i}))
+            parts.append((f'eps[{i}]', 1, {E: 0, fs(0): 1 + i}, (f'e[{i}]',)))
         return parts
     if kind == 'Dual2Vec':
         n = int(f[1])
-        parts = [('re', 0, {E: 0})]
+        parts = [('re', 0, {E: 0}, ())]
         for i in range(n):
-            parts.append((f'v1[{i}]', 1, {E: 0, fs(0): 1 + i}))
+            parts.append((f'v1[{i}]', 1, {E: 0, fs(0): 1 + i}, (f'e[{i}]',)))
         # storage order of the n x n matrix is column-major: (i,j) for j outer, i inner
         for j in range(n):
             for i in range(n):
                 me = 1 + n + j * n + i
-                parts.append((f'v2[{i},{j}]', 2, {E: 0, fs(0): 1 + i, fs(1): 1 + j, fs(0, 1): me}))
+                parts.append((f'v2[{i},{j}]', 2, {E: 0, fs(0): 1 + i, fs(1): 1 + j, fs(0, 1): me},
+                              (f'e[{i}]', f'e[{j}]')))
         return parts
     if kind == 'HyperDualVec':
         m, n = [int(x) for x in f[1].split('x')]
-        parts = [('re', 0, {E: 0})]
+        parts = [('re', 0, {E: 0}, ())]
         for i in range(m):
-            parts.append((f'eps1[{i}]', 1, {E: 0, fs(0): 1 + i}))
+            parts.append((f'eps1[{i}]', 1, {E: 0, fs(0): 1 + i}, (f'e1[{i}]',)))
         for j in range(n):
-            parts.append((f'eps2[{j}]', 1, {E: 0, fs(0): 1 + m + j}))
+            parts.append((f'eps2[{j}]', 1, {E: 0, fs(0): 1 + m + j}, (f'e2[{j}]',)))
         for j in range(n):
             for i in range(m):
                 me = 1 + m + n + j * m + i
                 parts.append((f'eps1eps2[{i},{j}]', 2,
-                              {E: 0, fs(0): 1 + i, fs(1): 1 + m + j, fs(0, 1): me}))
+                              {E: 0, fs(0): 1 + i, fs(1): 1 + m + j, fs(0, 1): me}, (f'e1[{i}]', f'e2[{j}]')))
         return parts
     raise ValueError(level)
 
 
 class Leaf:
-    __slots__ = ('path', 'k', 'blocks')
+    __slots__ = ('path', 'k', 'blocks', 'dirs')
 
-    def __init__(self, path, k, blocks):
-        self.path, self.k, self.blocks = path, k, blocks
+    def __init__(self, path, k, blocks, dirs=()):
+        self.path, self.k, self.blocks, self.dirs = path, k, blocks, dirs
 
 
 @lru_cache(maxsize=None)
@@ -102,15 +105,16 @@ def leaves_of(levels):
     outer = _level_parts(levels[0])
     inner = leaves_of(levels[1:])
     ni = len(inner)
+    depth = len(levels)
     out = []
-    for (pname, ko, bo) in outer:
+    for (pname, ko, bo, do) in outer:
         for li, lf in enumerate(inner):
             blocks = {}
             for so, po in bo.items():
                 for si, pi in lf.blocks.items():
                     blocks[so | frozenset(x + ko for x in si)] = po * ni + pi
             path = pname if not lf.path else f'{pname}.{lf.path}'
-            out.append(Leaf(path, ko + lf.k, blocks))
+            out.append(Leaf(path, ko + lf.k, blocks, tuple(f'L{depth}:{d}' for d in do) + lf.dirs))
     return out
 
 
